@@ -506,96 +506,187 @@ def f5(repo: Repo) -> RuleResult:
 # --------------------------------------------------------------------------
 
 
+def _is_dumps_of(a: Any, what: Any) -> bool:
+    if a is None:
+        return False
+    if a[0] == "mcall" and a[1] == "dumps" and len(a[2]) >= 2:
+        return bool(a[2][1] == what)
+    if a[0] == "call" and a[1].split(".")[-1] == "dumps" and a[2]:
+        return bool(a[2][0] == what)
+    return False
+
+
 @rule("C8", "every Python type a generated field can have is serialisable by MessageBase.to_json")
 def c8(repo: Repo) -> RuleResult:
+    from .emit import class_emissions
+    from .flows import compiler_flow, py_runtime
+    from .normal import V, show
+    from .pyflow import single_atom, str_of, tpl_shape
+
     res = RuleResult("C8", floor=3)
     m = get_model(repo)
     pf = m.cls("PyFormatter", "impls/py/formatter.py")
     emitted: Set[str] = set()
-    for meth in ("format_bool_type", "format_byte_type", "format_uint_type", "format_int_type", "format_array_type"):
-        f = m.lookup(pf, meth)
-        if f is None:
-            res.unsure(f"C8: PyFormatter.{meth} vanished")
-            continue
-        for n in ast.walk(f.node):
-            if isinstance(n, ast.Return) and n.value is not None:
-                if isinstance(n.value, ast.Constant):
-                    emitted.add(n.value.value)
-                else:
-                    s = src_of(n.value)
-                    emitted.add("List[...]" if "List[" in s else s)
+    # the Python annotations base types and arrays are generated with: words of every returned text
+    try:
+        flow = compiler_flow(repo, "PyFormatter", "impls/py/formatter.py", module_funcs=True, inline=lambda name, fn: not name.startswith("format_"))
+        for meth in ("format_bool_type", "format_byte_type", "format_uint_type", "format_int_type", "format_array_type"):
+            f = m.lookup(pf, meth)
+            if f is None:
+                res.unsure(f"C8: PyFormatter.{meth} vanished")
+                continue
+            for p_ in flow.run(f.node):
+                if p_.done != "return" or p_.ret is None:
+                    continue
+                t_ = tpl_shape(p_.ret, lambda x: " ")
+                if t_ is None:
+                    res.unsure(f"C8: PyFormatter.{meth} returns `{show(p_.ret)}`: not a text")
+                    continue
+                emitted |= set(re.findall(r"[A-Za-z_]\w*", t_))
+    except Inconclusive as e:
+        res.unsure(f"C8: {e}")
     res.inst(part="py", emitted_types=sorted(emitted))
     bp = m.mod("bitprotolib/bp.py")
-    mb = bp.classes.get("MessageBase")
-    tj = mb.methods.get("to_json") if mb else None
-    if tj is None:
-        res.unsure("C8: bp.MessageBase.to_json vanished")
+    L = py_runtime(repo)
+    if not L.has("MessageBase.to_json") or not L.has("MessageBase.to_dict"):
+        res.unsure("C8: bp.MessageBase.to_json / to_dict vanished")
         return res
-    dumps = [n for n in ast.walk(tj.node) if isinstance(n, ast.Call) and src_of(n.func) == "json.dumps"]
-    res.inst(part="py", function="MessageBase.to_json", dumps=[src_of(d) for d in dumps])
-    if len(dumps) != 1:
-        res.unsure("C8: to_json does not call json.dumps exactly once")
+    tj = L.func("MessageBase.to_json")
+    td = L.func("MessageBase.to_dict")
+    fl = L.flow(cls="MessageBase", primitives=("dumps", "asdict", "getattr"))
+    try:
+        dict_rets = [p_.ret for p_ in fl.run(td) if p_.done == "return"]
+        jpaths = [p_ for p_ in fl.run(tj) if p_.done == "return"]
+    except Inconclusive as e:
+        res.unsure(f"C8: {e}")
         return res
-    d = dumps[0]
-    if not d.args or src_of(d.args[0]) != "self.to_dict()":
-        f = Finding("C8", bp.rel, tj.node.lineno, "MessageBase.to_json", src_of(d), "to_json does not serialise to_dict()", tag="to_json:source")
-        f.part = "py"
-        res.bad(f)
-    natively = {"bool", "int", "List[...]", "str", "float"}
+    # to_dict converts with the generated dict_factory (drops the enum proxy attributes)
+    res.inst(part="py", function="MessageBase.to_dict", returns=[show(r) if r is not None else "None" for r in dict_rets])
+    for r in dict_rets:
+        a_ = single_atom(r) if r is not None else None
+        ok = a_ is not None and a_[0] == "call" and a_[1] == "asdict" and len(a_[2]) >= 1 and show(a_[2][0]) == "self"
+        if ok:
+            fac = None
+            for x in a_[2][1:]:
+                xa = single_atom(x)
+                if xa is not None and xa[0] == "kw" and xa[1] == "dict_factory":
+                    fac = single_atom(xa[2])
+            ok = fac is not None and fac[0] == "call" and fac[1] == "getattr" and len(fac[2]) == 3 and show(fac[2][0]) == "self" and str_of(fac[2][1]) == "dict_factory"
+        if not ok:
+            f = Finding("C8", bp.rel, td.lineno, "MessageBase.to_dict", show(r) if r is not None else "None", "to_dict does not convert with the generated dict_factory: enum proxy attributes leak into the output", tag="to_dict:factory")
+            f.part = "py"
+            res.bad(f)
+    natively = {"bool", "int", "List", "str", "float"}
     special = emitted - natively
-    dflt = next((k.value for k in d.keywords if k.arg == "default"), None)
-    handled: Set[str] = set()
-    if dflt is not None:
-        target = None
-        if isinstance(dflt, ast.Name):
-            r = m.resolve_name(bp, dflt.id)
-            from .pymodel import FuncInfo
-
-            if isinstance(r, FuncInfo):
-                target = r.node
-        elif isinstance(dflt, ast.Lambda):
-            target = dflt
-        elif isinstance(dflt, ast.Attribute):
-            target = mb.methods.get(dflt.attr).node if mb and dflt.attr in mb.methods else None
-        if target is not None:
-            t = src_of(target)
-            if "bytearray" in t and "list(" in t:
-                handled.add("bytearray")
-    for ty in sorted(special - handled):
-        f = Finding("C8", bp.rel, tj.node.lineno, "MessageBase.to_json", src_of(d), f"generated fields can have the Python type `{ty}`, which json.dumps cannot serialise (no `default=` handler for it): to_json raises TypeError", witness="message M { byte[2] b = 1 }  ->  M().to_json()", tag=f"to_json:{ty}")
-        f.part = "py"
-        res.bad(f)
-    # to_dict uses the generated dict_factory (drops the enum proxy attributes)
-    td = mb.methods.get("to_dict") if mb else None
-    t = src_of(td.node) if td else ""
-    res.inst(part="py", function="MessageBase.to_dict")
-    if "asdict(self, dict_factory=getattr(self, 'dict_factory', dict))" not in t:
-        f = Finding("C8", bp.rel, td.node.lineno if td else 0, "MessageBase.to_dict", "", "to_dict does not convert with the generated dict_factory: enum proxy attributes leak into the output", tag="to_dict:factory")
-        f.part = "py"
-        res.bad(f)
-    df0 = m.mod("impls/py/renderer.py").classes.get("BlockMessageDictFactory")
-    if df0 is not None:
-        from .core import enclosing
-
-        for n in ast.walk(df0.node):
-            if isinstance(n, ast.Call) and isinstance(n.func, ast.Attribute) and n.func.attr == "push" and n.args and "def dict_factory" in (_fstring_shape(n.args[0]) if isinstance(n.args[0], ast.JoinedStr) else str(getattr(n.args[0], "value", ""))):
-                cond = enclosing(n, (ast.If, ast.For, ast.While))
-                if cond is None:
-                    # an early return before the push makes it conditional as well
-                    fn0 = enclosing(n, ast.FunctionDef)
-                    pre = [t for t, truth in facts_at(n, fn0)] if fn0 is not None else []
-                    if pre:
-                        cond = ast.If(test=pre[0], body=[], orelse=[])
-                res.inst(part="py", function="BlockMessageDictFactory", conditional=cond is not None)
-                if cond is not None:
-                    f = Finding("C8", "compiler/bitproto/renderer/impls/py/renderer.py", n.lineno, "BlockMessageDictFactory", src_of(cond.test) if isinstance(cond, ast.If) else "loop", "dict_factory is emitted only for some messages, but dataclasses.asdict applies the TOP-LEVEL object's factory to every nested dataclass: the hidden enum proxy attributes of nested messages leak into to_dict()/to_json()", witness="message Outer { Inner i = 1 }  message Inner { Color c = 1 }: Outer().to_dict() contains _enum_field_proxy__c", tag="dict_factory:conditional")
-                    f.part = "py"
-                    res.bad(f)
+    for p_ in jpaths:
+        dumps = [e for e in p_.effects if e.kind == "call" and e.name == "dumps"]
+        res.inst(part="py", function="MessageBase.to_json", dumps=[show(e.args[0]) if e.args else "" for e in dumps])
+        if len(dumps) != 1:
+            res.unsure("C8: a path of to_json does not call json.dumps exactly once")
+            continue
+        d = dumps[0]
+        if not d.args or not any(r is not None and d.args[0] == r for r in dict_rets) or p_.ret is None or not _is_dumps_of(single_atom(p_.ret), d.args[0]):
+            f = Finding("C8", bp.rel, tj.lineno, "MessageBase.to_json", show(d.args[0]) if d.args else "", "to_json does not serialise to_dict()", tag="to_json:source")
+            f.part = "py"
+            res.bad(f)
+        handled: Set[str] = set()
+        dflt = d.kw.get("default")
+        if dflt is not None:
+            target = L.funcs.get(show(dflt)) or L.methods.get("MessageBase", {}).get(show(dflt).split(".")[-1])
+            if target is None:
+                res.unsure(f"C8: json.dumps default handler `{show(dflt)}` is not a function of bp.py")
+            else:
+                try:
+                    o = target.args.args[-1].arg
+                    for q in L.flow(primitives=("list",)).run(target):
+                        for k_, t_ in q.guards:
+                            if k_[0] == "isinstance" and show(k_[1]) == o and t_:
+                                ra = single_atom(q.ret) if q.ret is not None else None
+                                if q.done == "return" and ra is not None and ra[0] == "call" and ra[1] == "list" and len(ra[2]) == 1 and show(ra[2][0]) == o:
+                                    handled |= set(k_[2])
+                except Inconclusive as e:
+                    res.unsure(f"C8: {e}")
+        for ty in sorted(special - handled):
+            f = Finding("C8", bp.rel, tj.lineno, "MessageBase.to_json", show(p_.ret) if p_.ret is not None else "", f"generated fields can have the Python type `{ty}`, which json.dumps cannot serialise (no `default=` handler for it): to_json raises TypeError", witness="message M { byte[3] b = 1 }", tag=f"to_json:{ty}")
+            f.part = "py"
+            res.bad(f)
+    # the generated dict_factory
+    rel_r = "compiler/bitproto/renderer/impls/py/renderer.py"
     df = m.mod("impls/py/renderer.py").classes.get("BlockMessageDictFactory")
-    sh = _shapes(df.node) if df else []
-    res.inst(part="py", function="BlockMessageDictFactory", templates=sh)
-    if not any("if not k.startswith('{_enum_field_proxy_prefix}')" in s for s in sh):
-        f = Finding("C8", "compiler/bitproto/renderer/impls/py/renderer.py", df.node.lineno if df else 0, "BlockMessageDictFactory", str(sh), "the generated dict_factory does not drop exactly the keys starting with the enum proxy prefix", tag="dict_factory:filter")
-        f.part = "py"
-        res.bad(f)
+    if df is None:
+        res.unsure("C8: BlockMessageDictFactory vanished")
+        return res
+    try:
+        from .emit import block_flow, pushed
+
+        meths = [fi for n_, fi in df.methods.items() if n_ in ("before", "render", "after")]
+        def_paths = 0
+        all_paths = 0
+        lines: List[str] = []
+        for fi in meths:
+            bflow = block_flow(repo, df.name, "impls/py/renderer.py", "PyFormatter", "impls/py/formatter.py", {})
+            for p_ in bflow.run(fi.node, {"self": V("self")}):
+                if p_.done == "raise":
+                    continue
+                ls = [" " * int(r_ or 0) + t_ for r_, t_ in pushed(p_)]
+                if fi.name == "before" or any("def dict_factory" in l_ for l_ in ls):
+                    all_paths += 1
+                    if any(l_.strip().startswith("def dict_factory(") for l_ in ls):
+                        def_paths += 1
+                        lines = ls
+        res.inst(part="py", function="BlockMessageDictFactory", paths=all_paths, emitting=def_paths, templates=lines)
+        if def_paths == 0:
+            res.unsure("C8: BlockMessageDictFactory emits no `def dict_factory(`")
+            return res
+        if def_paths != all_paths:
+            f = Finding("C8", rel_r, df.node.lineno, "BlockMessageDictFactory", "", "dict_factory is emitted only for some messages, but dataclasses.asdict applies the TOP-LEVEL object's factory to every nested dataclass: the hidden enum proxy attributes of nested messages leak into to_dict()/to_json()", witness="message Outer { Inner i = 1 }  message Inner { Color c = 1 }: Outer().to_dict() contains _enum_field_proxy__c", tag="dict_factory:conditional")
+            f.part = "py"
+            res.bad(f)
+        # the emitted function, parsed: returns the pairs whose key does not start with the proxy prefix
+        i0 = next(i for i, l_ in enumerate(lines) if l_.strip().startswith("def dict_factory("))
+        body = [l_ for l_ in lines[i0:] if l_.strip()]
+        base = len(body[0]) - len(body[0].lstrip())
+        text = "\n".join(l_[base:] for l_ in body)
+        prefix_used = None
+        ok = False
+        try:
+            fn = ast.parse(text).body[0]
+            assert isinstance(fn, ast.FunctionDef) and len(fn.args.args) == 1
+            kv = fn.args.args[0].arg
+            st = [s_ for s_ in fn.body if not (isinstance(s_, ast.Expr) and isinstance(s_.value, ast.Constant))]
+            if len(st) == 1 and isinstance(st[0], ast.Return) and isinstance(st[0].value, (ast.DictComp, ast.Call)):
+                v_ = st[0].value
+                comp = v_ if isinstance(v_, ast.DictComp) else (v_.args[0] if isinstance(v_.func, ast.Name) and v_.func.id == "dict" and v_.args and isinstance(v_.args[0], (ast.GeneratorExp, ast.ListComp)) else None)
+                if comp is not None and len(comp.generators) == 1:
+                    g_ = comp.generators[0]
+                    tg = g_.target
+                    if isinstance(tg, ast.Tuple) and len(tg.elts) == 2 and all(isinstance(e_, ast.Name) for e_ in tg.elts) and isinstance(g_.iter, ast.Name) and g_.iter.id == kv:
+                        kn, vn = tg.elts[0].id, tg.elts[1].id
+                        if isinstance(comp, ast.DictComp):
+                            shape_ok = isinstance(comp.key, ast.Name) and comp.key.id == kn and isinstance(comp.value, ast.Name) and comp.value.id == vn
+                        else:
+                            shape_ok = isinstance(comp.elt, ast.Tuple) and [getattr(e_, "id", None) for e_ in comp.elt.elts] == [kn, vn]
+                        if shape_ok and len(g_.ifs) == 1:
+                            c_ = g_.ifs[0]
+                            if isinstance(c_, ast.UnaryOp) and isinstance(c_.op, ast.Not) and isinstance(c_.operand, ast.Call) and isinstance(c_.operand.func, ast.Attribute) and c_.operand.func.attr == "startswith" and isinstance(c_.operand.func.value, ast.Name) and c_.operand.func.value.id == kn and len(c_.operand.args) == 1 and isinstance(c_.operand.args[0], ast.Constant):
+                                prefix_used = c_.operand.args[0].value
+                                ok = True
+        except (SyntaxError, AssertionError, StopIteration):
+            ok = False
+        # the prefix the proxy attributes are generated with
+        proxies = set()
+        for cn_, ls_ in class_emissions(repo, "impls/py/renderer.py", named=True).items():
+            for l_ in ls_:
+                mm = re.match(r"^(\w+)\{self\.message_field_name\}: int = field\(", l_)
+                if mm:
+                    proxies.add(mm.group(1))
+        res.inst(part="py", function="BlockMessageDictFactory", filter_prefix=prefix_used, proxy_prefixes=sorted(proxies))
+        if not proxies:
+            res.unsure("C8: the enum proxy attribute declaration was not found in the generated dataclass fields")
+        elif not ok or proxies != {prefix_used}:
+            f = Finding("C8", rel_r, df.node.lineno, "BlockMessageDictFactory", text, "the generated dict_factory does not drop exactly the keys starting with the enum proxy prefix", tag="dict_factory:filter")
+            f.part = "py"
+            res.bad(f)
+    except Inconclusive as e:
+        res.unsure(f"C8: {e}")
     return res
